@@ -29,6 +29,7 @@ pub fn random_layout(t: &mut Tape) -> Layout {
         eol: *t.pick(&[Eol::Lf, Eol::CrLf, Eol::Cr]),
         indent: t.chance(2, 3),
         final_eol: t.chance(3, 4),
+        call_kw: 0,
     }
 }
 
@@ -128,6 +129,33 @@ fn build(tape: &[u32], with_calls: bool) -> Option<(Built, String, Layout)> {
         let k: usize = parts[1].parse().unwrap();
         parts[1] = (k + 1).to_string();
         fault_path = parts.join("/");
+    }
+    if with_calls && is_runtime(kind) && (which >> 3) % 3 == 0 {
+        // earlier in the faulted scope a built-in fails and the error is handled (RESUME NEXT at module level); the handler is
+        // switched off again: the call sites reported for the injected fault must still be complete
+        let zn = add_scalar(&mut prog, scope, "ZHN%", Ty::Int);
+        let zt = add_scalar(&mut prog, scope, "ZHT$", Ty::Str);
+        let pre = vec![
+            Stmt::OnErrorGoto(Some("ZH1".into())),
+            Stmt::Assign(zn.clone(), Expr::Un(UnOp::Neg, Box::new(Expr::Lit(Lit::Whole(1))))),
+            Stmt::Assign(zt, Expr::BuiltIn { name: "LEFT$".into(), args: vec![Expr::Lit(Lit::Str("abc".into())), Expr::Load(zn)], ty: Ty::Str }),
+            Stmt::OnErrorGoto(None),
+        ];
+        let npre = pre.len();
+        let body: &mut Vec<Stmt> = match scope {
+            None => &mut prog.main,
+            Some(p) => &mut prog.procs[p].body,
+        };
+        for (k, st) in pre.into_iter().enumerate() {
+            body.insert(k, st);
+        }
+        let mut parts: Vec<String> = fault_path.split('/').map(|s| s.to_string()).collect();
+        let k: usize = parts[1].parse().unwrap();
+        parts[1] = (k + npre).to_string();
+        fault_path = parts.join("/");
+        prog.main.push(Stmt::End);
+        prog.main.push(Stmt::Label("ZH1".into()));
+        prog.main.push(Stmt::Resume(ResumeKind::Next));
     }
     let r = render(&prog, &lay);
     Some((Built { r, fault_path, depth, in_proc: scope.is_some(), prog }, kind.to_string(), lay))
